@@ -25,11 +25,16 @@ Inductive case :=
 | E2E (id : N) (delta : bool) (t : xds_type) (sub : list N) (retained : cmap) (removed : list N)
       (final fresh : cmap) (answered : bool)
 (* order of the setup statements found in the source of initConnection and Push *)
-| Order (id : N) (conn push : list N).
+| Order (id : N) (conn push : list N)
+(* probe of the window between the LastPushContext read and addCon in the real initConnection, with
+   real Pushes issued back to back meanwhile: versions of the connection's LastPushContext and of the
+   global context at the end; [missed] = a Push newer than LastPushContext returned (hence had
+   enumerated the clients) while the connection was not yet registered, and nothing newer followed *)
+| Race (id : N) (lpc global : N) (missed : bool).
 
 Definition case_id c :=
   match c with
-  | Sess id _ _ _ _ => id | Step id => id | E2E id _ _ _ _ _ _ _ _ => id | Order id _ _ => id
+  | Sess id _ _ _ _ => id | Step id => id | E2E id _ _ _ _ _ _ _ _ => id | Order id _ _ => id | Race id _ _ _ => id
   end.
 
 (* ------------------------------------------------------------------ helpers *)
@@ -198,6 +203,10 @@ Definition model_fail (c : case) : option N :=
     if Bool.eqb ma answered && (negb answered || (map_eqb mf final && seteq mr (norm removed)))
     then None else Some id
   | Order id conn push => if order_ok conn push then None else Some id
+  | Race id lpc global missed =>
+    (* the model allows both outcomes (C05_no_snapshot_missed_refuted / _partial); a missed push
+       leaves the connection on an older context than the global one *)
+    if negb missed || (lpc <? global) then None else Some id
   end.
 
 Definition prop_fail (c : case) : option N :=
@@ -218,6 +227,7 @@ Definition prop_fail (c : case) : option N :=
     (* the connection is registered for pushes before its proxy is initialised, its push context is
        read before it is registered; a push commits its context before it enumerates the clients *)
     if before 1 2 conn && before 2 3 conn && before 4 5 push then None else Some id
+  | Race id _ _ missed => if missed then Some id else None
   end.
 
 Definition model_ok (c : case) : bool := match model_fail c with None => true | Some _ => false end.
